@@ -760,7 +760,7 @@ class C10(EvalProp):
                   "the generated grammar, TestFunction::try_new and the evaluator and keeps exactly the children the RFC keeps. Correspondence through the crate.")
     level_note = "the regex crate is external: modelled on a stated dialect and validated by correspondence; patterns with escapes are the known class D14"
     rule = ("length/count/value over argument kinds x node counts 0/1/2+; match/search over enumerated patterns x subjects; "
-            "non-trivial = RFC keeps at least one element")
+            "non-trivial = RFC keeps at least one element; plus patterns with a literal backslash (four backslashes in the query text) and counted repetitions of Unicode-aware atoms above a thousand on short subjects")
     n_quick = 6000
 
     def profile(self):
@@ -781,18 +781,29 @@ class C10(EvalProp):
         pats |= {"", "^a", "a$", "^a$", "^a|b$", "a|", "|a", "()", "(a|)", "a)(?:b", "(", ")", "[", "a**", "a{", "a{2,1}", "[b-a]", "(?:a|b)c",
                  "^", "$", "a^", "$a", "(^a)", "a|b|c", "((a))", "[.]", "[ab][ab]", ".*", ".+", "..", "a.c", "a\\\\.c", "a\\\\", "\\\\(a\\\\)", "[\\\\]]", "a\\nb",
                  "[(]|x", "f[(]|x", "[)]x|y", "[|]", "a[(|)]b|c", "f\\\\(|x", "x|f\\\\(", "\\\\)|a", "(a[(]|b)c", "[(][)]|ab"}
+        # a literal backslash in the pattern (four backslashes in the query text: the crate halves doubled backslashes once), and
+        # counted repetitions whose compiled program is large (Unicode-aware `.` and negated classes repeated a thousand times)
+        BIG = ["a\\\\\\\\b", "\\\\\\\\", "[\\\\\\\\/]b", "a\\\\\\\\\\\\."]
+        HUGE = [".{0,1200}", "[^>]{1,3000}", ".{0,1200}c"]
+        pats |= set(BIG)
         subs = [""] + ["".join(t) for n in (1, 2, 3) for t in itertools.product("abc", repeat=n)] + ["a\rb", "a\nb", "a.c", "(a)", "abab", "aab", "bbbb", "a\\", "]", "\r", "\n", "é", "\U0001F600", "ab\U0001F600",
-                                                                                                  "f(1)", "max", "f(", "x", "(", ")", "|", "(x", "f(x", "a(b", "a|b", ")x", "y", "()", "ab"]
+                                                                                                  "f(1)", "max", "f(", "x", "(", ")", "|", "(x", "f(x", "a(b", "a|b", ")x", "y", "()", "ab",
+                                                                                                  "a\\b", "\\", "a\\", "\\b", "a/b", "a\\."]
         doc = ("a",) + tuple(S(x) for x in subs) + (("i", 1), "null", ("a", S("a")))
         out = []
         pats = sorted(pats)
         if self.tier == "quick":
             pats = self.rng.sample(pats, 160) + ["^a|b$", "a)(?:b", "a.c", ".", "a|", "", "(a|b)c", "a\\\\.c", "a\\\\", "\\\\(a\\\\)", "[\\\\]]", "a\\nb",
-                                                 "[(]|x", "f[(]|x", "[)]x|y", "[|]", "a[(|)]b|c", "f\\\\(|x", "x|f\\\\(", "\\\\)|a", "(a[(]|b)c", "[(][)]|ab"]
+                                                 "[(]|x", "f[(]|x", "[)]x|y", "[|]", "a[(|)]b|c", "f\\\\(|x", "x|f\\\\(", "\\\\)|a", "(a[(]|b)c", "[(][)]|ab"] + BIG
         for p in pats:
             for fn in ("match", "search"):
                 q = ("q", ("sel", ("filter", ("atom", ("atest", ("tfn", (fn, ("argt", ("rel",)), ("argl", ("str", S(p))))), 0)))))
                 out.append(self.make_case("t", q, doc, {"fn": fn, "pattern": p}))
+        hdoc = ("a", S("abc"), S(""), S(">"), S("bbbbc"), ("i", 1))
+        for p in HUGE:
+            for fn in ("match", "search"):
+                q = ("q", ("sel", ("filter", ("atom", ("atest", ("tfn", (fn, ("argt", ("rel",)), ("argl", ("str", S(p))))), 0)))))
+                out.append(self.make_case("t", q, hdoc, {"fn": fn, "pattern": p, "table": "large-repetition"}))
         # the pattern taken from the document, and non-string arguments
         pd = o_(regex=S("a.c"), vals=("a", S("abc"), S("a.c"), S("ac"), ("i", 3)))
         for fn in ("match", "search"):
@@ -1527,7 +1538,7 @@ class C15(EvalProp):
                   "cannot use anything else. The selector lemmas C11_index / C11_slice_nodes are proved for every instance. The harness "
                   "contains a second, independent Rust implementation of Queryable (vector-backed objects, separate int/uint/float kinds); "
                   "every generated query is evaluated by the crate's engine over both representations of the same document and the results "
-                  "(locations found by address, path strings, order) must be identical, and equal to the model's and the RFC's. A further stream builds the second Queryable directly from the generated document with the members of every object in shuffled order (a Queryable may present members in any order): the engine over it, under both accessor styles, must agree with the model and the RFC semantics evaluated on that ordered view -- wildcards, descendants and filters follow the order presented, equality and the extension functions do not depend on it.")
+                  "(locations found by address, path strings, order) must be identical, and equal to the model's and the RFC's. A further stream builds the second Queryable directly from the generated document with the members of every object in shuffled order (a Queryable may present members in any order): the engine over it, under both accessor styles, must agree with the model and the RFC semantics evaluated on that ordered view -- wildcards, descendants and filters follow the order presented, equality and the extension functions do not depend on it. The string entry points are covered too: the harness implements JsonPath for the second Queryable with the provided methods only, and random query strings as well as the Normalized Path of document locations go through query_with_path / query / query_only_path of both representations, which must agree with each other, the model and the RFC.")
     level_note = "the simulation theorem between two arbitrary faithful instances is stated in Properties/C15.v; see its header for what is proved"
     rule = ("random (query, document) pairs as programmatically built ASTs evaluated through js_path_process::<V> for the second Queryable V "
             "and through js_path_process::<Value>; observable = (location by address, path) sequences of both; non-trivial = non-empty RFC result")
@@ -1568,6 +1579,31 @@ class C15(EvalProp):
         for i in range(n):
             q, d = g.pair()
             out.append(self.unsorted_case("u", q, self.shuffled(d)))
+        # the STRING entry points of the JsonPath trait over the second Queryable (`impl JsonPath for V {}`: provided methods
+        # only): random renderable queries, and queries spelled exactly as the Normalized Path of a location of the document
+        gs = gen.Gen(self.rng, gen.Profile(odd_names=True, custom=True, regex=False))
+        ns = 1200 if self.tier == "quick" else 15000
+        made = 0
+        for i in range(ns * 3):
+            if made >= ns:
+                break
+            q, d = gs.pair()
+            if not (gen.parser_shaped(q) and gen.valid_ast(q) and gen.renderable(q)):
+                continue
+            try:
+                text = gen.render(q, gen.Layout(self.rng, blank=0.1 if self.rng.random() < 0.5 else 0.0))
+            except Exception:
+                continue
+            out.append(Case("s", "EVAL", [q, d], {"query": text, "string_api": True}, impl=("GENS", [S(text), d])))
+            made += 1
+        for i in range(300 if self.tier == "quick" else 3000):
+            d = gs.doc()
+            locs_ = [l for l, _ in doc_locations(d) if l and loc_plain_py(l)]
+            self.rng.shuffle(locs_)
+            for loc in locs_[:3]:
+                q = ("q",) + tuple(("sel", ("idx", v)) if kind == "i" else ("sel", ("name", S("'" + v + "'"))) for kind, v in loc)
+                text = np_text(loc)
+                out.append(Case("s", "EVAL", [q, d], {"query": text, "string_api": True, "table": "normalized-path-as-query"}, impl=("GENS", [S(text), d])))
         # equal objects whose members come in different orders, compared with every operator, directly and nested
         def ob(*kv):
             return ("o",) + tuple((S(k), v) for k, v in kv)
